@@ -112,6 +112,18 @@ def opColl : RM Res := do
       preds := preds ++ [P "C10.collides_iff" (ambOwn || coll == !brute.isEmpty, s!"collides = {coll}, brute-force colliding pairs {showPairs brute}")]
     else
       preds := preds ++ [P "C10.collides_iff" (coll == false, "collides true in no-check mode")]
+    -- `near` answers for the safety table it is given (its own mode), whatever the robot's own table says
+    let relO := relevantPairs scO
+    -- exempt are the pairs marked never-colliding in the given table or in the robot's own one (`near_all_mode`)
+    let bruteO := dropAmb scO other ((relO.filter (fun p =>
+      pairVerdict scO other p.1 p.2 && (own.minDistance p.1 p.2 > neverCollides || p == (jTool, jBase)))).map normPair)
+    match other.mode with
+    | .allCollisions =>
+      preds := preds ++ [P "C10.near_all_exact" (sortPairs nI == sortPairs bruteO, s!"near reports {showPairs (sortPairs nI)} brute force at the given distances {showPairs (sortPairs bruteO)}")]
+    | .firstCollisionOnly =>
+      preds := preds ++ [P "C10.near_first_subset" (nI.length ≤ 1 && nI.all bruteO.contains && (ambOther || nI.isEmpty == bruteO.isEmpty), s!"near reports {showPairs nI} brute force {showPairs bruteO}")]
+    | .noCheck =>
+      preds := preds ++ [P "C10.near_nocheck_empty" (nearR.isEmpty, s!"near reports {showPairs nearR} in no-check mode")]
     pure { corr := if okD && okN && okC then "OK" else "MISMATCH",
            detail := if okD && okN && okC then "" else s!"details {okD} near {okN} collides {okC}: impl details {showPairs details} model hits {showPairs hitsOwn}; impl near {showPairs nearR} model {showPairs hitsOther}; collides impl {coll} model {mColl}",
            preds := preds,
